@@ -469,6 +469,74 @@ fn fragmented(quick: bool) -> Vec<Scen> {
     v
 }
 
+/// trains of long-data chunks of mixed sizes for one parameter (the one command kind that gets no
+/// reply, so a client sends several back to back), then the execute that surfaces them and a
+/// query: every triple of sizes from a ladder, coalesced and with one cut around every command
+/// boundary; and two chunks that are each fragmented (one of them a payload of exactly 2^24-1
+/// bytes), with one cut around every packet header and message end
+fn chunk_trains(quick: bool) -> Vec<Scen> {
+    let blk = exec_block(&[ExecParam { ty: 0xfc, unsigned: false, wire: None, long: true }], true);
+    let mk = |sizes: &[usize], salt: u8| -> (Conv, Vec<Cb>) {
+        let (p, cbp) = small_cmd(COM_STMT_PREPARE, b"id=1 p=1");
+        let mut cmds = vec![p];
+        let mut all = Vec::new();
+        for (i, n) in sizes.iter().enumerate() {
+            let data: Vec<u8> = (0..*n).map(|k| (k % 251) as u8 ^ salt ^ (i as u8)).collect();
+            cmds.push(ClientCmd::new(cmd_long(1, 0, &data)));
+            all.extend(data);
+        }
+        cmds.push(ClientCmd::new(cmd_execute(1, 0, 1, &blk)));
+        let (t, cbt) = small_cmd(COM_QUERY, b"tail");
+        cmds.push(t);
+        (Conv::new(cmds), vec![auth_cb(), cbp, Cb::Execute { id: 1, params: vec![(0xfc, PVal::Bytes(all))] }, cbt])
+    };
+    let mut v = Vec::new();
+    let ladder: Vec<usize> = if quick { vec![10, 4090, 65_536] } else { vec![0, 10, 3000, 4090, 8192, 65_536, 200_000] };
+    for a in &ladder {
+        for b in &ladder {
+            for c in &ladder {
+                let (conv, exp) = mk(&[*a, *b, *c], 0);
+                let mut sc = Scen::new(format!("PREPARE + long-data chunks of {}, {} and {} bytes + EXECUTE + query", a, b, c), conv, exp);
+                let mut cands = Vec::new();
+                for e in sc.ends.clone().into_iter().skip(1) {
+                    for d in [-1i64, 0, 1, 4] {
+                        let p = e as i64 + d;
+                        if p > 0 && (p as usize) < sc.stream.len() {
+                            cands.push(p as usize);
+                        }
+                    }
+                }
+                cands.sort();
+                cands.dedup();
+                sc.sets = Some(subsets_upto(&cands, 1));
+                v.push(sc);
+            }
+        }
+    }
+    let big: Vec<[usize; 2]> = if quick { vec![[MAXP + 3, MAXP - 7]] } else { vec![[MAXP + 3, MAXP - 7], [MAXP - 7, MAXP + 3], [MAXP - 8, 2 * MAXP - 7], [100, MAXP + 100]] };
+    for pair in big {
+        let (conv, exp) = mk(&pair, 0x5a);
+        let mut sc = Scen::new(format!("PREPARE + two long-data chunks of {} and {} data bytes (7 more in each payload) + EXECUTE + query", pair[0], pair[1]), conv, exp);
+        let mut cands = Vec::new();
+        for h in sc.headers.clone().into_iter().chain(sc.ends.clone()) {
+            if h <= sc.ends[1] {
+                continue;
+            }
+            for d in -2i64..=5 {
+                let p = h as i64 + d;
+                if p > 0 && (p as usize) < sc.stream.len() {
+                    cands.push(p as usize);
+                }
+            }
+        }
+        cands.sort();
+        cands.dedup();
+        sc.sets = Some(subsets_upto(&cands, 1));
+        v.push(sc);
+    }
+    v
+}
+
 /// single-packet payloads around 2^15, 2^16, 2^17, 2^20 and a few millions
 fn size_classes(quick: bool) -> Vec<Scen> {
     let mut sizes: Vec<usize> = Vec::new();
@@ -766,6 +834,8 @@ pub fn build(quick: bool) -> Check {
     let mut frag = ChunkFamily::new("fragmented-payloads", fragmented(quick));
     frag.threads = Some(8);
     let sizes = ChunkFamily::new("payload-size-classes", size_classes(quick));
+    let mut trains = ChunkFamily::new("long-data-chunk-trains", chunk_trains(quick));
+    trains.threads = Some(8);
     let deep = ChunkFamily::new("deep-pipeline", deep_pipeline(quick));
     let ltm = ChunkFamily::new("large-then-many", large_then_many(quick));
     let texts = ChunkFamily::new("texts-beyond-ascii-behind-every-handshake", texts_behind_handshakes());
@@ -788,7 +858,7 @@ pub fn build(quick: bool) -> Check {
     Check {
         id: "C01",
         level: "model_checking",
-        rule: "every execution is one complete run of the real run_on over a scripted transport; schedules are sets of cut positions no read() may cross (all 2^n sets for streams of <= 17 (quick) / 23 (thorough) command bytes; all sets of <= 2-3 cuts for longer streams; <= 1-2 cuts around fragment headers for 16-32 MiB payloads; single-packet payloads around 2^15, 2^16, 2^17, 2^20 and up to 3 MB with <= 1-2 cuts; 300/1200 pipelined commands with a cut at (every fifth /) every position and under uniform read sizes 1..4097; a command of 70 KB..1.1 MB (thorough 5 KB..9 MB) followed by 40 / 1000 small commands in the same burst with <= 1 (thorough 2) cuts around the end of the large command and the next headers; every single cut of H + 4 commands with ErrorKind::Interrupted returned once by each read (what reaches the shim must stay a byte-exact prefix); every history of 5 (thorough: 6) commands over PREPARE / long data / EXECUTE / CLOSE / two queries / PING as a well-behaved client encodes it, followed by a query, under every single cut behind the handshake, histories of 3 (4) under every pair of cuts (thorough: of 3 under every triple). Long scripted sessions: 130..4099 (thorough: up to 131101) ordinary commands of every kind on one connection in up to six mixes (even, prepare/close churn with growing ids, executions, long-data chunks, unanswered commands, text and library-answered commands) under several client/transport behaviours (pipelined, request ids advancing by 7, lock-step, 1..4093-byte reads, 7/11-byte writes), generated by a fixed rule, kept valid with the registry model and judged on the complete trace (callbacks with arguments, result, strict decode of every reply with its sequence ids). Non-trivial = some read ends strictly inside a packet header or one read spans two messages.".into(),
+        rule: "every execution is one complete run of the real run_on over a scripted transport; schedules are sets of cut positions no read() may cross (all 2^n sets for streams of <= 17 (quick) / 23 (thorough) command bytes; all sets of <= 2-3 cuts for longer streams; <= 1-2 cuts around fragment headers for 16-32 MiB payloads; single-packet payloads around 2^15, 2^16, 2^17, 2^20 and up to 3 MB with <= 1-2 cuts; trains of three long-data chunks of every combination of sizes from a ladder (10..65536, thorough 0..200000) for one parameter, then EXECUTE and a query, coalesced and with one cut around every command boundary, and two chunks that are each fragmented (one payload of exactly 2^24-1 bytes) with one cut around every packet header and message end; 300/1200 pipelined commands with a cut at (every fifth /) every position and under uniform read sizes 1..4097; a command of 70 KB..1.1 MB (thorough 5 KB..9 MB) followed by 40 / 1000 small commands in the same burst with <= 1 (thorough 2) cuts around the end of the large command and the next headers; every single cut of H + 4 commands with ErrorKind::Interrupted returned once by each read (what reaches the shim must stay a byte-exact prefix); every history of 5 (thorough: 6) commands over PREPARE / long data / EXECUTE / CLOSE / two queries / PING as a well-behaved client encodes it, followed by a query, under every single cut behind the handshake, histories of 3 (4) under every pair of cuts (thorough: of 3 under every triple). Long scripted sessions: 130..4099 (thorough: up to 131101) ordinary commands of every kind on one connection in up to six mixes (even, prepare/close churn with growing ids, executions, long-data chunks, unanswered commands, text and library-answered commands) under several client/transport behaviours (pipelined, request ids advancing by 7, lock-step, 1..4093-byte reads, 7/11-byte writes), generated by a fixed rule, kept valid with the registry model and judged on the complete trace (callbacks with arguments, result, strict decode of every reply with its sequence ids). Non-trivial = some read ends strictly inside a packet header or one read spans two messages.".into(),
         assumptions: vec![
             "1-byte reads over multi-megabyte payloads are not run (the implementation re-parses per read); they are covered exhaustively at small sizes".into(),
             "the oracle is the shim's callback log plus a strict client-side decode of all replies".into(),
@@ -797,7 +867,7 @@ pub fn build(quick: bool) -> Check {
         exhaustive: true,
         caps_hit: vec![],
         families: {
-            let mut f: Vec<Box<dyn Family>> = vec![Box::new(small), Box::new(phase), Box::new(thr), Box::new(frag), Box::new(sizes), Box::new(deep), Box::new(ltm), Box::new(texts), Box::new(InterruptedReads::new())];
+            let mut f: Vec<Box<dyn Family>> = vec![Box::new(small), Box::new(phase), Box::new(thr), Box::new(frag), Box::new(sizes), Box::new(trains), Box::new(deep), Box::new(ltm), Box::new(texts), Box::new(InterruptedReads::new())];
             f.extend(walks);
             f
         },
